@@ -919,10 +919,19 @@ impl<C: CellType> OptRebuild<'_, C> {
                 self.emit(var);
                 self.read(var);
             }
+            let mut overwritten = Vec::new();
             for (&var, _) in &sub_state.written {
                 if !constant.contains(&var) {
                     clobbered.insert(var);
+                } else if let Some(users) = self.reverse.get(&var) {
+                    // The value is the same again after the block, but the cell itself is
+                    // overwritten inside. Pending operations still reading it must go first.
+                    overwritten.extend(users.iter().copied());
                 }
+            }
+            overwritten.sort();
+            for var in overwritten {
+                self.emit(var);
             }
             if !loop_anal.no_effect {
                 let mut clobber = Vec::new();
